@@ -341,7 +341,8 @@ def split_prefixes(body, params, target: int, max_depth: int = 6) -> list[list[i
             done.append(p)  # body finished without needing more picks
         except _NeedArity as na:
             if na.n == 0:
-                continue  # assumption false: prefix infeasible
+                done.append(p)  # an assumption over dummy values says nothing about feasibility: keep the prefix, do not split further
+                continue
             frontier.extend(p + [v] for v in range(na.n))
         except Exception:
             done.append(p)  # let the real exploration report it
